@@ -852,6 +852,9 @@ func (env *SpecEnv) equal(a, b *Value) Term {
 		if o.Seq != nil {
 			sfail("nil comparison with sequence")
 		}
+		if o.P != nil && (o.P.Elem || o.P.Local != nil || o.P.Global != nil || len(o.P.Path) > 0) {
+			return TFalse // address of a variable, field or element: never nil
+		}
 		return Eq(o.C[0], IntLit(0)) // pointer ref, slice ref, interface tag, map ref
 	}
 	if a.Seq != nil || b.Seq != nil || isString(a.T) || isString(b.T) {
